@@ -248,3 +248,29 @@ Proof.
       { intro; subst y. apply NoDup_remove_2 in Hn. apply Hn. apply in_or_app. left. exact Hx. }
       lia.
 Qed.
+
+(* with keep >= 2 prune leaves the two largest ids *)
+Lemma firstn_below_two : forall l keep x, StronglySorted leN l -> NoDup l -> (2 <= keep)%nat ->
+  In x (firstn (length l - keep) l) -> exists y z, In y l /\ In z l /\ y <> z /\ x < y /\ x < z.
+Proof.
+  intros l keep x Hs Hn Hk Hx.
+  set (m := (length l - keep)%nat) in *.
+  assert (l = firstn m l ++ skipn m l) as E by (symmetry; apply firstn_skipn).
+  assert (m <> 0)%nat as Hm0 by (intro E0; rewrite E0 in Hx; cbn in Hx; contradiction).
+  assert (length (skipn m l) = keep) as Hlen by (rewrite skipn_length; unfold m in *; lia).
+  destruct (skipn m l) as [|y [|z r]] eqn:Es; cbn [length] in Hlen; try lia.
+  rewrite E in Hs, Hn. exists y, z.
+  assert (In y l) as Hy by (rewrite E; apply in_or_app; right; left; reflexivity).
+  assert (In z l) as Hz by (rewrite E; apply in_or_app; right; right; left; reflexivity).
+  assert (x <= y) by (eapply ss_app_cross; [exact Hs|exact Hx|left; reflexivity]).
+  assert (x <= z) by (eapply ss_app_cross; [exact Hs|exact Hx|right; left; reflexivity]).
+  assert (NoDup (y :: z :: r)) as Hn2.
+  { clear - Hn. induction (firstn m l) as [|a t IHt]; [exact Hn|]. cbn [app] in Hn. inversion Hn; subst. apply IHt. assumption. }
+  assert (y <> z) by (inversion Hn2 as [|? ? Hni _]; intro; subst; apply Hni; left; reflexivity).
+  assert (x <> y).
+  { intro; subst y. apply NoDup_remove_2 in Hn. apply Hn. apply in_or_app. left. exact Hx. }
+  assert (x <> z).
+  { intro; subst z. assert (NoDup (firstn m l ++ [y] ++ x :: r)) as Hn3 by exact Hn.
+    rewrite app_assoc in Hn3. apply NoDup_remove_2 in Hn3. apply Hn3. apply in_or_app. left. apply in_or_app. left. exact Hx. }
+  repeat split; try assumption; lia.
+Qed.
